@@ -1,0 +1,20 @@
+//go:build verif
+
+package random
+
+// Verification hook (build tag `verif` only): the package's sampling helpers
+// (UintN, Permutation, SubPermutation, Shuffle, Samples) run over a caller-supplied
+// source of bytes, so that they can be executed on every random tape.
+
+type verifCore struct{ read func([]byte) }
+
+func (c verifCore) Read(b []byte) { c.read(b) }
+
+type verifRand struct{ genericPRG }
+
+func (*verifRand) Store() []byte { return nil }
+
+// NewVerifRand returns a Rand whose randomness is whatever `read` writes into the buffer.
+func NewVerifRand(read func([]byte)) Rand {
+	return &verifRand{genericPRG{randCore: verifCore{read}}}
+}
